@@ -42,7 +42,7 @@ pub struct CountingAlloc;
 fn report_oversize(size: usize, what: &str) {
     let was = COUNTING.swap(false, Ordering::Relaxed);
     // first the facts (so they survive whatever happens next), then the site from a backtrace
-    let line = format!("\nA {} {} {} {}\n", CASE_IDX.load(Ordering::Relaxed), STAGE.load(Ordering::Relaxed), size, what);
+    let line = format!("\nA {} {} {} {} {}\n", CASE_IDX.load(Ordering::Relaxed), STAGE.load(Ordering::Relaxed), size, what, CAP.load(Ordering::Relaxed));
     unsafe {
         libc::write(1, line.as_ptr() as *const libc::c_void, line.len());
     }
@@ -141,6 +141,11 @@ pub fn counting_begin(case_idx: u32, input_len: usize) {
     CAP.store(alloc_cap(input_len), Ordering::Relaxed);
     BASE.store(LIVE.load(Ordering::Relaxed), Ordering::Relaxed);
     COUNTING.store(true, Ordering::Relaxed);
+}
+/// After decompression the reference length for "in proportion" is the decompressed body
+/// (a compressed frame legitimately stands for up to 255x its size).
+pub fn raise_cap_for(input_len: usize) {
+    CAP.fetch_max(alloc_cap(input_len), Ordering::Relaxed);
 }
 pub fn counting_pause() -> bool {
     COUNTING.swap(false, Ordering::Relaxed)
@@ -406,6 +411,14 @@ pub struct Decoded {
 /// how many rows the harness pulls from an iterator before it stops (iteration is consumer-driven; every step is checked)
 pub const MAX_ROWS_PULLED: usize = 4096;
 
+/// hex without intermediate Strings
+fn push_hex(out: &mut String, b: &[u8]) {
+    const H: &[u8; 16] = b"0123456789abcdef";
+    for x in b {
+        out.push(H[(x >> 4) as usize] as char);
+        out.push(H[(x & 15) as usize] as char);
+    }
+}
 fn out(d: &mut Decoded, s: &str) {
     let was = counting_pause();
     d.dump.push_str(s);
@@ -431,8 +444,10 @@ pub fn cached_metadata_from(body: &[u8], feat: u8) -> Option<Arc<ResultMetadata<
 }
 
 /// Run the whole pipeline on one frame. Panics propagate to the caller (which catches and classifies them).
-pub fn decode(frame: &[u8], comp: u8, feat: u8, opts: u8, cached: Option<&Arc<ResultMetadata<'static>>>) -> Decoded {
-    let mut d = Decoded { all_ok: true, ..Default::default() };
+/// `dump_buf`: a cleared String whose capacity was reserved *outside* the measured window (the canonical text
+/// is harness memory and must not show up as live bytes of the decode).
+pub fn decode(frame: &[u8], comp: u8, feat: u8, opts: u8, cached: Option<&Arc<ResultMetadata<'static>>>, dump_buf: String) -> Decoded {
+    let mut d = Decoded { all_ok: true, dump: dump_buf, ..Default::default() };
     let features = features_of(feat);
     // ---- 1. frame
     d.stage = 1;
@@ -466,6 +481,7 @@ pub fn decode(frame: &[u8], comp: u8, feat: u8, opts: u8, cached: Option<&Arc<Re
         }
         Ok(x) => x,
     };
+    raise_cap_for(frame.len().max(ext.body.len()));
     {
         let was = counting_pause();
         let payload = match &ext.custom_payload {
@@ -583,22 +599,26 @@ pub fn decode(frame: &[u8], comp: u8, feat: u8, opts: u8, cached: Option<&Arc<Re
                                         break;
                                     }
                                     Ok(cols) => {
-                                        let mut line = String::from("  raw");
+                                        d.dump.push_str("  raw");
                                         for c in cols {
                                             match c {
                                                 Err(e) => {
+                                                    d.dump.push('\n');
                                                     err(&mut d, "rows-raw", &e);
                                                     break 'rows;
                                                 }
                                                 Ok(rc) => {
                                                     let was = counting_pause();
-                                                    line.push(' ');
-                                                    line.push_str(&rc.slice.map(|s| p_hex(s.as_slice())).unwrap_or("null".into()));
+                                                    d.dump.push(' ');
+                                                    match rc.slice {
+                                                        None => d.dump.push_str("null"),
+                                                        Some(sl) => push_hex(&mut d.dump, sl.as_slice()),
+                                                    }
                                                     counting_resume(was);
                                                 }
                                             }
                                         }
-                                        out(&mut d, &line);
+                                        d.dump.push('\n');
                                         d.rows_seen += 1;
                                     }
                                 }
